@@ -28,7 +28,10 @@ META = {
         "separator the reader splits on, comment prefix stripped, one header line skipped, column formats joined with "
         "the loader's delimiter, the three per-column accumulations run in one loop over the same list, field names of "
         "the structured array agree. R6: the default number format must keep 17 significant digits, otherwise values do "
-        "not round-trip (D9b: '%2.2e' keeps 3 - known finding). Not decided: csv.writer emitting repr(float) "
+        "not round-trip (D9b: '%2.2e' keeps 3 - known finding). R7: the 3-d writer emits the attribute in which the constructor "
+        "the reader calls stores its points (followed through super().__init__), i.e. the current point set, not a snapshot "
+        "attribute. R8: in the 2-d reader the edges renumbered through uniquify_point_set's old->new map are handed on "
+        "together with the unique points returned by the same call (lock-step of the triple). Not decided: csv.writer emitting repr(float) "
         "(trusted language fact), geometric processing done by the network constructors after reading."),
     "rule_text": "one obligation per bounding-box key per reader, per order flag, per delimiter pair, per loader call, per layout fact",
     "trusted_base": ["python ast", "sa.core (loader, astutil)", "csv.writer writes str(float) (shortest round-trip repr)",
@@ -37,7 +40,7 @@ META = {
                     "unless a rule says otherwise", "header names contain no whitespace (see notes)"],
     "technique": "writer/reader table extraction and comparison (permutations, flags, separators) on the AST",
 }
-MIN_INSTANCES = {"R1": 12, "R2": 5, "R3": 2, "R4": 8, "R5": 7, "R6": 1}
+MIN_INSTANCES = {"R1": 12, "R2": 5, "R3": 2, "R4": 8, "R5": 7, "R6": 1, "R7": 1, "R8": 1}
 
 
 def _str(e) -> str | None:
@@ -299,7 +302,166 @@ def _check_3d(ctx: Ctx) -> None:
     ctx.check("R2", "float" in u(src) or call_name(src) == "asfarray", r, "network_3d_from_csv", rs,
               "fracture rows must be parsed as floats before reshaping",
               construct="3d row parsed as float", facts={"source": u(src)})
+    _check_point_attribute(ctx, w, r, fn, rs, frac_expr, pm)
 
+
+
+def _find_class(ctx: Ctx, name: str, hint_dir: str = "src/porepy/fracs"):
+    for rel in ctx.repo.all_py(hint_dir):
+        m = ctx.repo.module(rel)
+        for n in m.tree.body:
+            if isinstance(n, ast.ClassDef) and n.name == name:
+                return m, n
+    return None, None
+
+
+def _stored_attribute(ctx: Ctx, cls_name: str, param_pos: int | None, param_kw: str | None, depth: int = 0):
+    """Attribute in which the constructor of `cls_name` stores the given argument: follows super().__init__ calls.
+    Returns (attribute, declaring module, declaring class node, init) or raises Undecided."""
+    if depth > 4:
+        raise Undecided(f"constructor chain of {cls_name} too deep")
+    m, c = _find_class(ctx, cls_name)
+    if c is None:
+        raise Undecided(f"class {cls_name} not found under src/porepy/fracs")
+    init = next((f for f in c.body if isinstance(f, ast.FunctionDef) and f.name == "__init__"), None)
+    if init is None:
+        if not c.bases:
+            raise Undecided(f"{cls_name} has no __init__")
+        return _stored_attribute(ctx, (dotted(c.bases[0]) or u(c.bases[0])).split(".")[-1], param_pos, param_kw, depth + 1)
+    params = [a.arg for a in init.args.args][1:]
+    if param_kw is not None:
+        if param_kw not in params:
+            raise Undecided(f"{cls_name}.__init__ has no parameter {param_kw}")
+        P = param_kw
+    else:
+        if param_pos is None or param_pos >= len(params):
+            raise Undecided(f"{cls_name}.__init__: positional argument {param_pos} not bound")
+        P = params[param_pos]
+    for st in stmts_local(init):
+        tg = st.target if isinstance(st, ast.AnnAssign) else (st.targets[0] if isinstance(st, ast.Assign) and len(st.targets) == 1 else None)
+        val = getattr(st, "value", None)
+        if isinstance(tg, ast.Attribute) and isinstance(tg.value, ast.Name) and tg.value.id == "self" and val is not None \
+                and P in names_in(val):
+            return tg.attr, m, c, init
+    for call in [x for x in walk_local(init) if isinstance(x, ast.Call) and isinstance(x.func, ast.Attribute) and x.func.attr == "__init__"
+                 and "super" in u(x.func.value)]:
+        for k, a in enumerate(call.args):
+            if isinstance(a, ast.Name) and a.id == P:
+                base = (dotted(c.bases[0]) or u(c.bases[0])).split(".")[-1]
+                return _stored_attribute(ctx, base, k, None, depth + 1)
+        for kw in call.keywords:
+            if isinstance(kw.value, ast.Name) and kw.value.id == P and kw.arg:
+                base = (dotted(c.bases[0]) or u(c.bases[0])).split(".")[-1]
+                return _stored_attribute(ctx, base, None, kw.arg, depth + 1)
+    raise Undecided(f"{cls_name}.__init__: cannot see where parameter `{P}` is stored")
+
+
+def _check_point_attribute(ctx: Ctx, w, r, rfn: ast.FunctionDef, rs: ast.Call, frac_expr: ast.Call, pm: dict) -> None:
+    """R7: the writer must emit the attribute in which the reader's constructor stores the points it reads back."""
+    # constructor call that receives the reshaped row
+    node = rs
+    while node in pm and not (isinstance(pm[node], ast.Call) and pm[node] is not rs and (node in pm[node].args or any(k.value is node for k in pm[node].keywords))):
+        nxt = pm[node]
+        if isinstance(nxt, ast.Attribute) and nxt.attr == "T":
+            node = nxt
+            continue
+        if isinstance(nxt, ast.keyword):
+            node = nxt
+            break
+        break
+    cons = pm.get(node)
+    kwname = None
+    if isinstance(node, ast.keyword):
+        kwname = node.arg
+        cons = pm.get(node)
+    if not isinstance(cons, ast.Call):
+        # through a temporary
+        st = pm.get(node)
+        if isinstance(st, ast.Assign) and len(st.targets) == 1 and isinstance(st.targets[0], ast.Name):
+            tmp = st.targets[0].id
+            cands = [c for c in walk_local(rfn) if isinstance(c, ast.Call) and (any(isinstance(a, ast.Name) and a.id == tmp for a in c.args)
+                                                                                 or any(isinstance(k.value, ast.Name) and k.value.id == tmp for k in c.keywords))
+                     and (call_name(c) or "").endswith("Fracture")]
+            if len(cands) == 1:
+                cons = cands[0]
+                pos_tmp = [i for i, a in enumerate(cons.args) if isinstance(a, ast.Name) and a.id == tmp]
+                kwname = next((k.arg for k in cons.keywords if isinstance(k.value, ast.Name) and k.value.id == tmp), None)
+                node = cons.args[pos_tmp[0]] if pos_tmp else node
+    if not isinstance(cons, ast.Call) or not (call_name(cons) or "")[:1].isupper():
+        raise Undecided("network_3d_from_csv: the constructor receiving the reshaped points was not found")
+    cname = call_name(cons)
+    pos = next((i for i, a in enumerate(cons.args) if a is node), None) if kwname is None else None
+    attr, dm, dcls, init = _stored_attribute(ctx, cname, pos, kwname)
+    # what the writer emits: <loopvar>.<attr>[.T].ravel(...)
+    base = frac_expr.func.value if isinstance(frac_expr.func, ast.Attribute) else None
+    if isinstance(base, ast.Name) and base.id in ("np", "numpy") and frac_expr.args:
+        base = frac_expr.args[0]
+    if isinstance(base, ast.Attribute) and base.attr == "T":
+        base = base.value
+    if not (isinstance(base, ast.Attribute) and isinstance(base.value, ast.Name)):
+        raise Undecided(f"FractureNetwork3d.to_csv: written array `{u(base) if base is not None else None}` is not an attribute of the loop variable")
+    wattr = base.attr
+    # why another attribute is wrong: classify it from the constructor
+    other = ""
+    if wattr != attr:
+        for st in stmts_local(init):
+            tg = st.target if isinstance(st, ast.AnnAssign) else (st.targets[0] if isinstance(st, ast.Assign) and len(st.targets) == 1 else None)
+            if isinstance(tg, ast.Attribute) and tg.attr == wattr and getattr(st, "value", None) is not None:
+                other = f" (`{wattr}` is set once in the constructor as `{u(st.value)}`: a snapshot that geometry-modifying methods do not update)"
+    ctx.check("R7", wattr == attr, w, "FractureNetwork3d.to_csv", frac_expr,
+              f"the reader rebuilds each fracture as {cname}(<row>), whose constructor stores the points in `.{attr}` "
+              f"({dm.rel}:{dcls.name}.__init__) - that is also the attribute later geometry operations modify; the writer must emit "
+              f"`.{attr}`, it emits `.{wattr}`{other}",
+              construct=f"3d writer emits .{wattr}; constructor stores points in .{attr}",
+              facts={"constructor": cname, "stored_in": attr, "written": wattr})
+
+
+def _check_uniquify_lockstep(ctx: Ctx, mod, qual: str, fn: ast.FunctionDef, as_rule: bool) -> int:
+    """R8: when index arrays are renumbered through the old->new map returned by uniquify_point_set, every later call that
+    receives a renumbered array must receive the UNIQUE points of the same call, not the array that was uniquified."""
+    n = 0
+    body = list(stmts_local(fn))
+    for st in body:
+        if not (isinstance(st, ast.Assign) and isinstance(st.value, ast.Call) and call_name(st.value) == "uniquify_point_set"
+                and isinstance(st.targets[0], ast.Tuple) and len(st.targets[0].elts) == 3 and st.value.args
+                and isinstance(st.value.args[0], ast.Name)):
+            continue
+        U, _N2O, O2N = [e.id if isinstance(e, ast.Name) else None for e in st.targets[0].elts]
+        src = st.value.args[0].id
+        if O2N is None or O2N == "_":
+            continue
+        after = [x for x in body if x.lineno > st.lineno]
+        # arrays renumbered through O2N
+        renum = set()
+        for x in after:
+            if isinstance(x, ast.Assign) and isinstance(x.value, ast.Subscript) and isinstance(x.value.value, ast.Name) and x.value.value.id == O2N:
+                t = x.targets[0]
+                base = t.value if isinstance(t, ast.Subscript) else t
+                if isinstance(base, ast.Name):
+                    renum.add(base.id)
+        if not renum:
+            continue
+        # is `src` re-bound to the unique points (same name re-used) ?
+        consumers = [c for x in after for c in ast.walk(x) if isinstance(c, ast.Call) and call_name(c) != "uniquify_point_set"
+                     and any(isinstance(a, ast.Name) and a.id in renum for a in list(c.args) + [k.value for k in c.keywords])]
+        for c in consumers:
+            names = [a.id for a in list(c.args) + [k.value for k in c.keywords] if isinstance(a, ast.Name)]
+            stale = src in names and U != src
+            uses_unique = U is not None and U != "_" and U in names
+            if not stale and not uses_unique:
+                continue  # the call does not take a point array at all
+            n += 1
+            msg = (f"`{u(c)[:70]}` receives `{', '.join(sorted(renum))}` renumbered through `{O2N}` (numbers of the UNIQUE points "
+                   f"returned by `{u(st.value)[:50]}`) together with the point array "
+                   + (f"`{src}` that was uniquified - the unique points are bound to `{U}` and not used: indices and points no longer match"
+                      if stale else f"`{U}` returned by the same call"))
+            if as_rule:
+                ctx.check("R8", not stale, mod, qual, c, msg,
+                          construct=f"renumbered indices passed with {'the un-uniquified' if stale else 'the unique'} points",
+                          facts={"unique": U, "input": src, "renumbered": sorted(renum)})
+            elif stale:
+                ctx.note(f"sweep (not a finding) {mod.rel}:{qual}: " + msg)
+    return n
 
 # ======================================================================================
 #  2-d csv
@@ -532,6 +694,8 @@ def _check_2d(ctx: Ctx) -> None:
     ok_id = bool(fid) and all(u(s.value) == "data[:, 0]" for s in fid)
     ctx.check("R4", ok_id, r, rq, fid[0] if fid else rfn, "the fracture id is read from column 0, where the writer puts it",
               construct="2d id column 0")
+    if _check_uniquify_lockstep(ctx, r, rq, rfn, as_rule=True) == 0:
+        raise Undecided(f"{rq}: no call receives the point array together with the renumbered edges (uniquify lock-step not visible)")
 
 
 def _isenum(e) -> bool:
@@ -793,6 +957,12 @@ def _sweep(ctx: Ctx) -> None:
                 if "format" in qn.lower() and sig_digits(_str(r.value)) is not None and sig_digits(_str(r.value)) < 17:
                     ctx.note(f"{mod.rel}:{qn}: returns format {_str(r.value)!r} ({sig_digits(_str(r.value))} significant digits, lossy)")
     ctx.note(f"sweep: {n} TxtData(...) constructions in src/porepy")
+    n_lock = 0
+    for mod in ctx.repo.modules("src/porepy"):
+        for qn, fn in mod.functions():
+            if any(isinstance(c, ast.Call) and call_name(c) == "uniquify_point_set" for c in walk_local(fn)):
+                n_lock += _check_uniquify_lockstep(ctx, mod, qn, fn, as_rule=False)
+    ctx.note(f"sweep: uniquify_point_set lock-step (unique points / old->new map) examined at {n_lock} consumer call(s) repo-wide")
     ctx.note("observation (not a rule): FractureNetwork3d.to_csv(file) writes no domain line by default (domain=None) while "
              "network_3d_from_csv(file) expects one by default (has_domain=True): with both defaults the first fracture is "
              "consumed as the bounding box and silently dropped")
@@ -813,6 +983,11 @@ def _m(name, file, old, new, rule, control=False, count=1):
 
 
 MUTANTS = [
+    _m("seed-3d-writer-original-points", N3D, 'csv_writer.writerow(f.pts.ravel(order="F"))', 'csv_writer.writerow(f.orig_pts.ravel(order="F"))', "R7"),
+    _m("seed-2d-reader-stale-points", IMP, "    pts, _, old_2_new = pp.array_operations.uniquify_point_set(pts, tol=tol)",
+       "    unique_pts, _, old_2_new = pp.array_operations.uniquify_point_set(pts, tol=tol)", "R8"),
+    _m("2d-reader-unique-points-discarded", IMP, "    pts, _, old_2_new = pp.array_operations.uniquify_point_set(pts, tol=tol)",
+       "    _, _, old_2_new = pp.array_operations.uniquify_point_set(pts, tol=tol)", "R8"),
     _m("revert-fix-D9-no-ndmin", TXT, "        unpack=True,\n        ndmin=2,\n", "        unpack=True,\n", "R3", control=True),
     _m("loadtxt-no-unpack", TXT, "        unpack=True,\n        ndmin=2,\n", "        ndmin=2,\n", "R3"),
     _m("loadtxt-ndmin-1", TXT, "ndmin=2,", "ndmin=1,", "R3"),
